@@ -25,7 +25,12 @@ X (reference evaluator, by name) into slot state_index(X); monitor_values writes
 monitor_index(name); (4) every RHSArgument order (6, for rhs and monitor_values) and every SchemeArgument order (24, numpy and C; 3
 random ones for jax) only permutes the formals: calling with correspondingly permuted actuals returns the identical array.  One case
 = one (model, back end, check).  A wrong slot is reported only when the produced values are a permutation of the expected ones
-(wrong values are C01/C02/C03).  Non-trivial: >= 2 states (slot checks) ; distinct by sha1(text, back end, check)."""
+(wrong values are C01/C02/C03).  The init and result-slot checks (2), (3) are ALSO made on a module generated with remove_unused=True,
+BY NAME through that module's own index functions: rhs(...)[state_index(X)] must be the reference derivative of X, explicit_euler(...)
+[state_index(X)] = X + dt dX, init values sit in the slot of state_index (signatures end in :remove_unused).  Half of the models have the shape
+"derivatives independent of each other + unused intermediates that mention states / parameters in various orders" (there a sorter that is run
+on the reduced assignment set orders the derivatives differently), a fifth has intermediates that mention a d<state>_dt name.
+Non-trivial: >= 2 states (slot checks) ; distinct by sha1(text, back end, check)."""
 
 
 def cases(tier, seed, focus):
@@ -34,7 +39,7 @@ def cases(tier, seed, focus):
         k = seed * 100003 + i
         bes = ["numpy", "c"] + (["jax"] if i % 4 == 0 else [])
         feats = [f for f in mg.ALL_FEATURES if f not in ("intquot", "Mod")] if i % 3 else None  # keep C value defects (C02) from hiding slot checks
-        yield {"mseed": k, "opts": {"n_states": [2, 5] if i % 5 else [1, 1], "force": list(mg.feature_cycle(k, 2)), "features": feats}, "npts": 3, "backends": bes, "tags": ["C04"]}
+        yield {"mseed": k, "opts": {"n_states": [2, 5] if i % 5 else [1, 1], "force": list(mg.feature_cycle(k, 2)), "features": feats, "indep": 0.5 if i % 5 else 0.0, "deriv_ref": 0.2, "c_safe": bool(i % 3)}, "npts": 3, "backends": bes, "tags": ["C04"]}
 
 
 def check(case):
@@ -121,79 +126,18 @@ def check(case):
                         add("declared-count-wrong", "NUM_STATES/NUM_PARAMS/NUM_MONITORED differ from the model", [len(ref.states), len(ref.params), len(ref.assigns)], got, chk="index")
                 elif [len(m.state), len(m.parameter), len(m.monitor)] != [len(ref.states), len(ref.params), len(ref.assigns)]:
                     add("declared-count-wrong", "state/parameter/monitor tables differ in size from the model", [len(ref.states), len(ref.params), len(ref.assigns)], [len(m.state), len(m.parameter), len(m.monitor)], chk="index")
-            # (2) init functions ----------------------------------------------------------------------
-            if unit("init"):
-                s0, p0 = ref.defaults()
-                for fn, want, which in (("init_state_values", s0, "state"), ("init_parameter_values", p0, "parameter")):
-                    if not want and bk == "jax":
-                        continue
-                    try:
-                        arr = m.lib.init(fn, len(want)) if bk == "c" else np.asarray(m.ns[fn](), dtype=float)
-                        n = len(arr) - 2 if bk == "c" else len(arr)
-                        if n != len(want) or (bk == "c" and not np.all(np.isnan(arr[len(want):]))):
-                            add(f"init-length:{which}", f"{fn} fills {n} slots, model declares {len(want)}", len(want), n, chk="init")
-                            continue
-                        bad = {k: float(arr[m.index(which, k)]) for k in want if not slot_ok(arr[m.index(which, k)], want[k], ref, which, k)}
-                        if bad:
-                            kind = "init-slot-permuted" if perm(list(bad.values()), [want[k] for k in bad]) else "init-value"
-                            if kind == "init-slot-permuted":
-                                add(f"{kind}:{which}", f"{fn} puts defaults into slots other than {which}_index reports", {k: want[k] for k in bad}, bad, chk="init")
-                            else:
-                                cm.note(res, f"skipped:{bk}:init-value-differs(C02)")
-                        if bk != "c" and want:
-                            for key in rng.sample(sorted(want), min(2, len(want))):
-                                arr2 = np.asarray(m.ns[fn](**{key: 1234.5}), dtype=float)
-                                exp = np.array(arr, dtype=float)
-                                exp[m.index(which, key)] = 1234.5
-                                if not np.array_equal(arr2, exp):
-                                    add(f"init-override:{which}", f"{fn}({key}=1234.5) does not change exactly slot {which}_index({key!r})", cm.tolist(exp), cm.tolist(arr2), chk="init")
-                            try:
-                                m.ns[fn](**{"no_such_name_zz": 1.0})
-                                add(f"init-override-unknown-accepted:{which}", f"{fn}(no_such_name_zz=1.0) is accepted", "KeyError", "no exception", chk="init")
-                            except KeyError:
-                                pass
-                            except Exception as e:  # noqa: BLE001
-                                if bk != "jax":
-                                    add(f"init-override-unknown-wrong-exception:{which}", f"{fn}(no_such_name_zz=1.0) raises {cm.exc_name(e)}", "KeyError", cm.exc_name(e), chk="init")
-                    except Exception as e:  # noqa: BLE001
-                        add(f"init-raises:{which}", f"{fn} raises", "array", cm.exc_name(e), cm.short(e), "init")
-            # (3) result slots ---------------------------------------------------------------------------
+            # (2) init functions, (3) result slots: on the plain module and on the module generated with remove_unused=True -----------
             s, p = m.arrays(pt)
-            base = {}
-            if unit("slots"):
-                dt = 0.125
-                checks = [("rhs", None, {x: vals[f"d{x}_dt"] for x in ref.states}, "state"), ("monitor_values", None, dict(vals), "monitor")]
-                if schemes:
-                    checks.append(("explicit_euler", dt, {x: pt["states"][x] + dt * vals[f"d{x}_dt"] for x in ref.states}, "state"))
-                for fn, d, want, which in checks:
-                    try:
-                        arr = m.raw(fn, s, pt["t"], p, dt=d, n_out=len(want))
-                    except be.Stage as e:
-                        cm.note(res, f"skipped:{bk}:{fn}-call-fails(C02/C03)")
-                        continue
-                    n = len(arr) - 2 if bk == "c" else len(arr)
-                    if bk == "c" and not np.all(np.isnan(arr[len(want):])):
-                        add(f"writes-past-end:{fn}", f"{fn} writes beyond the declared {len(want)} slots", len(want), cm.tolist(arr), chk="slots")
-                    if bk != "c" and n != len(want):
-                        if bk == "jax":
-                            cm.note(res, f"skipped:jax:{fn}-wrong-length(C03)")
-                        else:
-                            add(f"result-length:{fn}", f"{fn} returns {n} entries, declared count is {len(want)}", len(want), n, chk="slots")
-                        continue
-                    bad = {k: float(arr[m.index(which, k)]) for k in want if not cm.close(arr[m.index(which, k)], want[k], 1e-9, 1e-9)}
-                    if bad:
-                        if len(bad) >= 2 and perm(list(bad.values()), [want[k] for k in bad]):
-                            add(f"result-slot-permuted:{fn}", f"{fn} writes results into slots other than {which}_index reports", {k: want[k] for k in bad}, bad, chk="slots")
-                        else:
-                            cm.note(res, f"skipped:{bk}:{fn}-values-differ-from-reference(C01/C02)")
-                if schemes:
-                    try:  # GRL slot: compare with the numpy GRL by name is C06/C02; here only: every slot written, none twice
-                        arr = m.raw("generalized_rush_larsen", s, pt["t"], p, dt=dt)
-                        n = len(arr) - 2 if bk == "c" else len(arr)
-                        if bk == "c" and (np.any(np.isnan(arr[: len(ref.states)])) and not any(math.isnan(v) for v in vals.values())):
-                            add("slot-not-written:generalized_rush_larsen", "a state slot is left unwritten by generalized_rush_larsen", "all slots", cm.tolist(arr), chk="slots")
-                    except be.Stage:
-                        pass
+            slot_checks(m, bk, "", ref, pt, vals, schemes, unit, add, res, rng)
+            if not only or str(only).endswith(":remove_unused"):
+                try:
+                    mr = be.build(ode, bk, schemes, remove_unused=True)
+                except be.Stage as e:
+                    cm.note(res, f"skipped:{bk}:remove_unused-module-{e.stage}-fails(C12)")
+                    mr = None
+                if mr is not None:
+                    with mr:
+                        slot_checks(mr, bk, ":remove_unused", ref, pt, vals, schemes, unit, add, res, rng)
             # (4) argument orders ----------------------------------------------------------------------------
             if unit("orders"):
                 try:
@@ -201,6 +145,87 @@ def check(case):
                 except be.Stage as e:
                     cm.note(res, f"skipped:{bk}:order-variants-{e.stage}-fail")
     return res
+
+
+def slot_checks(m, bk, suffix, ref, pt, vals, schemes, unit, add, res, rng):
+    """(2) init functions and (3) result slots of module m, by name through m's own index functions; suffix '' or ':remove_unused'"""
+    if unit("init" + suffix):
+        s0, p0 = ref.defaults()
+        for fn, want, which in (("init_state_values", s0, "state"), ("init_parameter_values", p0, "parameter")):
+            if not want and bk == "jax":
+                continue
+            chk = "init" + suffix
+            try:
+                arr = m.lib.init(fn, len(want)) if bk == "c" else np.asarray(m.ns[fn](), dtype=float)
+                n = len(arr) - 2 if bk == "c" else len(arr)
+                if n != len(want) or (bk == "c" and not np.all(np.isnan(arr[len(want):]))):
+                    add(f"init-length:{which}{suffix}", f"{fn} fills {n} slots, model declares {len(want)}", len(want), n, chk=chk)
+                    continue
+                bad = {k: float(arr[m.index(which, k)]) for k in want if not slot_ok(arr[m.index(which, k)], want[k], ref, which, k)}
+                if bad:
+                    kind = "init-slot-permuted" if perm(list(bad.values()), [want[k] for k in bad]) else "init-value"
+                    if kind == "init-slot-permuted":
+                        add(f"{kind}:{which}{suffix}", f"{fn} puts defaults into slots other than {which}_index reports", {k: want[k] for k in bad}, bad, chk=chk)
+                    else:
+                        cm.note(res, f"skipped:{bk}:init-value-differs(C02)")
+                if bk != "c" and want and not suffix:
+                    for key in rng.sample(sorted(want), min(2, len(want))):
+                        arr2 = np.asarray(m.ns[fn](**{key: 1234.5}), dtype=float)
+                        exp = np.array(arr, dtype=float)
+                        exp[m.index(which, key)] = 1234.5
+                        if not np.array_equal(arr2, exp):
+                            add(f"init-override:{which}", f"{fn}({key}=1234.5) does not change exactly slot {which}_index({key!r})", cm.tolist(exp), cm.tolist(arr2), chk=chk)
+                    try:
+                        m.ns[fn](**{"no_such_name_zz": 1.0})
+                        add(f"init-override-unknown-accepted:{which}", f"{fn}(no_such_name_zz=1.0) is accepted", "KeyError", "no exception", chk=chk)
+                    except KeyError:
+                        pass
+                    except Exception as e:  # noqa: BLE001
+                        if bk != "jax":
+                            add(f"init-override-unknown-wrong-exception:{which}", f"{fn}(no_such_name_zz=1.0) raises {cm.exc_name(e)}", "KeyError", cm.exc_name(e), chk=chk)
+            except Exception as e:  # noqa: BLE001
+                add(f"init-raises:{which}{suffix}", f"{fn} raises", "array", cm.exc_name(e), cm.short(e), chk)
+    s, p = m.arrays(pt)
+    if unit("slots" + suffix):
+        chk = "slots" + suffix
+        dt = 0.125
+        checks = [("rhs", None, {x: vals[f"d{x}_dt"] for x in ref.states}, "state"), ("monitor_values", None, dict(vals), "monitor")]
+        if schemes:
+            checks.append(("explicit_euler", dt, {x: pt["states"][x] + dt * vals[f"d{x}_dt"] for x in ref.states}, "state"))
+        for fn, d, want, which in checks:
+            try:
+                arr = m.raw(fn, s, pt["t"], p, dt=d, n_out=len(want))
+            except be.Stage:
+                cm.note(res, f"skipped:{bk}:{fn}-call-fails(C02/C03/C12)")
+                continue
+            n = len(arr) - 2 if bk == "c" else len(arr)
+            if bk == "c" and not np.all(np.isnan(arr[len(want):])):
+                add(f"writes-past-end:{fn}{suffix}", f"{fn} writes beyond the declared {len(want)} slots", len(want), cm.tolist(arr), chk=chk)
+            if bk != "c" and n != len(want):
+                if bk == "jax":
+                    cm.note(res, f"skipped:jax:{fn}-wrong-length(C03)")
+                else:
+                    add(f"result-length:{fn}{suffix}", f"{fn} returns {n} entries, declared count is {len(want)}", len(want), n, chk=chk)
+                continue
+            try:
+                got = {k: float(arr[m.index(which, k)]) for k in want}
+            except Exception as e:  # noqa: BLE001 - the index function of this module does not know a declared name
+                add(f"{which}-index-raises{suffix}", f"{which}_index raises for a declared name", "index", cm.exc_name(e), cm.short(e), chk)
+                continue
+            bad = {k: got[k] for k in want if not cm.vclose(got[k], want[k], ref.last_maxabs, 1e-9) and not cm.close(got[k], want[k], 1e-9, 1e-9)}
+            if bad:
+                if len(bad) >= 2 and perm(list(bad.values()), [want[k] for k in bad]):
+                    add(f"result-slot-permuted:{fn}{suffix}", f"{fn}" + (" of the module generated with remove_unused=True" if suffix else "") + f" writes results into slots other than {which}_index reports",
+                        {k: want[k] for k in bad}, bad, f"{which} table {getattr(m, which)}", chk=chk)
+                else:
+                    cm.note(res, f"skipped:{bk}:{fn}-values-differ-from-reference(C01/C02)")
+        if schemes:
+            try:  # GRL slot: compare with the numpy GRL by name is C06/C02; here only: every slot written, none twice
+                arr = m.raw("generalized_rush_larsen", s, pt["t"], p, dt=dt)
+                if bk == "c" and (np.any(np.isnan(arr[: len(ref.states)])) and not any(math.isnan(v) for v in vals.values())):
+                    add(f"slot-not-written:generalized_rush_larsen{suffix}", "a state slot is left unwritten by generalized_rush_larsen", "all slots", cm.tolist(arr), chk=chk)
+            except be.Stage:
+                pass
 
 
 def slot_ok(got, want, ref, which, k):
